@@ -203,6 +203,9 @@ class Gen:
             pre = r.choice([self.pick_nick(1.0), self.pick_nick(1.0), self.conns.get(c, {}).get("nick") or "x",
                             "nobody", "irc.test", self.pick_nick(1.0) + "!~u@h", "a b"[:1]])
             text = ":%s %s" % (pre, text)
+        # a `line` operation is a line the codec accepts (at most 2000 bytes); longer input is the `toolong` operation
+        if len(text.encode()) > 2000:
+            text = text.encode()[:1990].decode(errors="ignore")
         self.ops.append("line %d %s" % (c, esc(text)))
 
     def text(self, pool=None):
